@@ -4,7 +4,8 @@
 //
 // Workload: histories of get-or-create / put / delete / reset-flood / lookups over few
 // metrics and a small key pool, virtual clock steps around the StepSec boundary, drains
-// (creations without clock movement until the flood answer), reopen of the database.
+// (creations without clock movement until the flood answer), reopen of the database,
+// continuation on a database rebuilt from the binlog alone (promoted replica).
 // Oracle: a reference bijection (string<->id, ids ever used) and an explicit token bucket
 // per metric, judged in the sound direction only (created => the bucket had a token).
 package metadata
@@ -57,6 +58,8 @@ type c19Hist struct {
 	pool        []string
 	log         []string
 	reopens     int
+	promotions  int
+	dbFile      string
 	deletes     int
 	puts        int
 	broken      bool
@@ -201,7 +204,7 @@ func (h *c19Hist) getOrCreate(metric, key string) (created, flood bool) {
 			h.logf("getorcreate(%s,%s) -> get %d", metric, c19Quote(key), g.Id)
 		}
 		h.w.Count("answer.get_existing", 1)
-		h.w.Case(h.deletes+h.puts+h.reopens > 0, fmt.Sprintf("existing|del%v|put%v|reopen%v", h.deletes > 0, h.puts > 0, h.reopens > 0))
+		h.w.Case(h.deletes+h.puts+h.reopens+h.promotions > 0, fmt.Sprintf("existing|del%v|put%v|reopen%v", h.deletes > 0, h.puts > 0, h.reopens > 0))
 		return
 	}
 	// the key is absent: either a creation or a flood-limit answer
@@ -221,7 +224,7 @@ func (h *c19Hist) getOrCreate(metric, key string) (created, flood bool) {
 	} else {
 		tentative = h.maxB
 	}
-	abstraction := fmt.Sprintf("max%d|bon%d|tok%d|steps%d|init%v|writer%s|gb%d", h.maxB, h.bon, b.tokens, min(steps, 4), b.init, b.lastWriter, min(h.gb, 1))
+	abstraction := fmt.Sprintf("max%d|bon%d|tok%d|steps%d|init%v|writer%s|gb%d|restored%v", h.maxB, h.bon, b.tokens, min(steps, 4), b.init, b.lastWriter, min(h.gb, 1), h.promotions > 0)
 	if c, ok := resp.AsCreated(); ok {
 		created = true
 		id := c.Id
@@ -318,7 +321,7 @@ func (h *c19Hist) lookups(n int) {
 				h.logf("bystr(%s) -> %d notExists=%v err=%v (model %d,%v)", c19Quote(key), id, notExists, err, want, ok)
 				h.viol("bijection/lookup-by-value", fmt.Sprintf("GetMappingByValue disagrees with the history: got (%d, notExists=%v, err=%v), expected (%d, exists=%v)", id, notExists, err, want, ok), map[string]any{"key": key})
 			}
-			h.w.Case(h.deletes+h.puts+h.reopens > 0, fmt.Sprintf("byvalue|%v|del%v|put%v|reopen%v", ok, h.deletes > 0, h.puts > 0, h.reopens > 0))
+			h.w.Case(h.deletes+h.puts+h.reopens+h.promotions > 0, fmt.Sprintf("byvalue|%v|del%v|put%v|reopen%v", ok, h.deletes > 0, h.puts > 0, h.reopens > 0))
 		} else {
 			var id int32
 			if ever := h.everList(); len(ever) > 0 && h.rnd.IntN(5) != 0 {
@@ -333,7 +336,7 @@ func (h *c19Hist) lookups(n int) {
 				h.logf("byid(%d) -> %s exists=%v err=%v (model %s,%v)", id, c19Quote(s), exists, err, c19Quote(want), ok)
 				h.viol("bijection/lookup-by-id", fmt.Sprintf("GetMappingByID(%d) disagrees with the history: got (%q, %v, err=%v), expected (%q, %v)", id, s, exists, err, want, ok), nil)
 			}
-			h.w.Case(h.deletes+h.puts+h.reopens > 0, fmt.Sprintf("byid|%v|ever%v|del%v|put%v|reopen%v", ok, h.everIDs[id], h.deletes > 0, h.puts > 0, h.reopens > 0))
+			h.w.Case(h.deletes+h.puts+h.reopens+h.promotions > 0, fmt.Sprintf("byid|%v|ever%v|del%v|put%v|reopen%v", ok, h.everIDs[id], h.deletes > 0, h.puts > 0, h.reopens > 0))
 		}
 	}
 }
@@ -537,7 +540,7 @@ func (h *c19Hist) reopen() bool {
 		h.viol("reopen/close-error", err.Error(), nil)
 		return false
 	}
-	db, err := mdkOpen(h.dir, "db", h.opt, 0)
+	db, err := mdkOpen(h.dir, h.dbFile, h.opt, 0)
 	if err != nil {
 		h.db = nil
 		h.viol("reopen/open-error", err.Error(), nil)
@@ -548,6 +551,47 @@ func (h *c19Hist) reopen() bool {
 	h.w.Count("op.reopen", 1)
 	h.logf("reopen")
 	return true
+}
+
+// promote abandons the current database file and continues on one rebuilt from the binlog
+// alone, the way a promoted replica (or a primary restarted from an old snapshot) would.
+// Ids, strings, "ids ever used" and every metric's budget must carry over: the same models
+// keep judging.  ResetFlood writes no binlog event (known finding C16/reset-flood-not-logged),
+// so a metric whose flood row was last written by a reset comes back with the row of its last
+// creation; for exactly those metrics the bucket is re-read from the restored row and the
+// hand-over is counted as not judged.
+func (h *c19Hist) promote(metrics []string) bool {
+	if err := mdkClose(h.db); err != nil {
+		h.viol("promote/close-error", err.Error(), nil)
+		h.db = nil
+		return false
+	}
+	h.promotions++
+	h.dbFile = fmt.Sprintf("db-restored-%d", h.promotions)
+	db, err := mdkOpen(h.dir, h.dbFile, h.opt, 0)
+	if err != nil {
+		h.db = nil
+		h.viol("promote/replay-error", "the binlog cannot be replayed into a fresh database: "+err.Error(), nil)
+		return false
+	}
+	h.db = db
+	h.w.Count("op.promote_restored_database", 1)
+	h.logf("promote: continue on %s rebuilt from the binlog", h.dbFile)
+	for m, b := range h.buckets {
+		if b.lastWriter == "reset" {
+			h.resync(m)
+			b.lastWriter, b.taint = "create", false
+			h.r.NotJudged("promote_budget_of_metric_with_unlogged_reset_reread", 1)
+		} else {
+			h.w.Count("promote.metric_budgets_carried_over_and_judged", 1)
+		}
+	}
+	// spend, without clock movement, whatever the restored database believes to have
+	for _, m := range metrics {
+		h.drain(m)
+	}
+	h.lookups(3)
+	return !h.broken
 }
 
 func c19RunHistory(r *verifkit.Run, w *verifkit.Worker, idx, nOps int) {
@@ -571,7 +615,8 @@ func c19RunHistory(r *verifkit.Run, w *verifkit.Worker, idx, nOps int) {
 		r.Inconclusive("cannot create binlog: " + err.Error())
 		return
 	}
-	db, err := mdkOpen(h.dir, "db", h.opt, 0)
+	h.dbFile = "db"
+	db, err := mdkOpen(h.dir, h.dbFile, h.opt, 0)
 	if err != nil {
 		r.Inconclusive("cannot open database: " + err.Error())
 		return
@@ -602,10 +647,14 @@ func c19RunHistory(r *verifkit.Run, w *verifkit.Worker, idx, nOps int) {
 			h.del()
 		case k < 90:
 			h.reset(m)
-		case k < 97:
+		case k < 95:
 			h.drain(m)
-		default:
+		case k < 97:
 			if !h.reopen() {
+				return
+			}
+		default:
+			if !h.promote(metrics) {
 				return
 			}
 		}
@@ -614,7 +663,7 @@ func c19RunHistory(r *verifkit.Run, w *verifkit.Worker, idx, nOps int) {
 		return
 	}
 	if idx == 0 {
-		r.Assume("journal mode observed on disk in history 0: " + mdkJournalMode(h.dir, "db"))
+		r.Assume("journal mode observed on disk in history 0: " + mdkJournalMode(h.dir, h.dbFile))
 	}
 	// final: drain every metric, then check the whole bijection from both sides
 	for _, m := range metrics {
@@ -659,7 +708,7 @@ func TestVerifC19(t *testing.T) {
 	mdkAssumeSQLite(r)
 	r.Assume("the clock passed through Options.Now never goes backwards")
 	r.Assume("PutMapping is an administrative override: the pair replaces whatever held the id or the key; ids put by hand are positive and far below 2^31")
-	r.SetRule("histories of get-or-create / put / delete / reset-flood / lookups / GetNewMappings pages / drains / reopen over 2–4 metrics and a growing key pool (hostile keys: empty-ish, 2 KB, binary, quotes, non-ASCII), MaxBudget 1–5, bonus 0–2, StepSec 60/100/3600, GlobalBudget 0/2/6, clock steps 0…3·StepSec around the boundary. One case = one judged answer. Non-trivial = a creation/flood decision outside the global-budget exemption, or a lookup/page after a delete, put or reopen; distinct = (answer kind, MaxBudget, bonus, model tokens, steps crossed, last writer of the flood row) resp. (lookup kind, hit/miss, history features).")
+	r.SetRule("histories of get-or-create / put / delete / reset-flood / lookups / GetNewMappings pages / drains / reopen / continuation on a database rebuilt from the binlog (promoted replica) over 2–4 metrics and a growing key pool (hostile keys: empty-ish, 2 KB, binary, quotes, non-ASCII), MaxBudget 1–5, bonus 0–2, StepSec 60/100/3600, GlobalBudget 0/2/6, clock steps 0…3·StepSec around the boundary. One case = one judged answer. Non-trivial = a creation/flood decision outside the global-budget exemption, or a lookup/page after a delete, put or reopen; distinct = (answer kind, MaxBudget, bonus, model tokens, steps crossed, last writer of the flood row) resp. (lookup kind, hit/miss, history features).")
 	nHist := r.N(160, 3000)
 	nOps := r.N(80, 100)
 	workers := r.N(8, 16)
